@@ -36,7 +36,7 @@ func c10State(st *engine.Step) {
 		wl[k] = true
 	}
 	configured := s.AB.Config.Modules.LogoutMethod
-	for _, m := range []string{"GET", "POST", "DELETE"} {
+	for _, m := range []string{"GET", "POST", "DELETE", "HEAD", "PUT", "PATCH", "OPTIONS"} {
 		cl := w.Clone()
 		rq := flows.Logout(s, b)
 		rq.Method = m
@@ -44,9 +44,12 @@ func c10State(st *engine.Step) {
 		st.Count(1, "logout:"+map[bool]string{true: "configured-method", false: "other-method"}[m == configured])
 		if m != configured {
 			// only the remember middleware may act (it runs for every request); the logout handler must not
-			if o.Status != 404 {
+			if o.Status != 404 && o.Status != 405 {
 				st.Report(engine.Violation{Rule: "C10/logout-reacts-to-other-method", Attrs: "method=" + m + ",configured=" + configured,
 					Detail: fmt.Sprintf("logout is configured for %s but a %s request was answered with %d", configured, m, o.Status)})
+			}
+			if o.CookBefore["rm"] != "" && o.UIDBefore() != "" && o.CookAfter["rm"] == "" {
+				st.Report(engine.Violation{Rule: "C10/logout-reacts-to-other-method", Attrs: "method=" + m + ",configured=" + configured, Detail: "a request with a non-configured method removed the remember cookie"})
 			}
 			if o.UIDBefore() != "" && o.UIDAfter() == "" && !s.Cfg.Has("expire") {
 				st.Report(engine.Violation{Rule: "C10/logout-reacts-to-other-method", Attrs: "method=" + m + ",configured=" + configured, Detail: "a request with a non-configured method logged the user out"})
